@@ -1,1 +1,472 @@
-/-! Property theorems for C15 (not built yet). -/
+import Cellml.C15.Queries
+import Cellml.C15.Perm
+import Cellml.Props.C01
+
+/-! # C15 — the same document always yields the same model
+
+    Model: `Cellml/C15/Model.lean` = the loader of C01 (`Load.load`) and the graph / `get_equations_for` of C09 with
+    every Python `set` iteration that exists in the code (harness/setscan.py lists them from the source text) made an
+    explicit ADVERSARIAL ORDER (`Adv`; `Adv.Fair`: the adversary permutes, nothing else).
+
+    Part 1 (hash seeds).   `load_order_independent`, `queries_order_independent`: nothing the ordered API returns
+      depends on the adversary. The code BEFORE the fix is kept as `transformConstantsSet` / `loadSet` with the proved
+      counterexample `transform_constants_set_order_dependent`; two order dependences that are still in the code are
+      reproduced by the model and proved: `graph_nodes_order_dependent`, `derived_depends_on_equation_order`.
+    Part 2 (sorting).      `sorted_queries_deterministic`, `order_added_distinct`, `lexTopo_insertion_independent`.
+    Part 3 (permutations). `variables_follow_document`, `equations_follow_document` say exactly which orders follow
+      the document; `element_perm_*` say what does not change when order-insensitive elements are permuted. -/
+
+namespace Cellml.Props.C15
+open Load _root_.C15
+
+/-! ## Part 1 — iteration order of sets -/
+
+/-- `transform_constants` after the fix is the `constsOf` of the loader model: the variable table in insertion order -/
+theorem transformConstants_eq (states : List VRef) (vt : VarTable) :
+    transformConstants states vt = constsOf states vt := by
+  unfold transformConstants constsOf constOf
+  rfl
+
+/-- BEFORE the fix the equations appended by `transform_constants` were the same SET in an order chosen by the hash
+    function … -/
+theorem transformConstantsSet_perm (π : Adv) (hπ : π.Fair) (states : List VRef) (vt : VarTable) :
+    (transformConstantsSet π states vt).Perm (transformConstants states vt) :=
+  (hπ.consts vt).filterMap _
+
+/-- … and the order did depend on it: two fair adversaries, two different equation lists (three constants). -/
+theorem transform_constants_set_order_dependent :
+    ∃ (π π' : Adv) (vt : VarTable), π.Fair ∧ π'.Fair ∧
+      transformConstantsSet π [] vt ≠ transformConstantsSet π' [] vt := by
+  refine ⟨Adv.ident, Adv.rev,
+    [(("A", "a"), ⟨[], .none, .none, some 1, none, "dimensionless"⟩),
+     (("A", "b"), ⟨[], .none, .none, some 2, none, "dimensionless"⟩),
+     (("A", "c"), ⟨[], .none, .none, some 3, none, "dimensionless"⟩)], fair_ident, fair_rev, ?_⟩
+  decide +kernel
+
+/-- **After the fix loading does not consult any set iteration**: the whole flat model — `variables()` in order,
+    `equations` in order, initial values, cmeta ids — is the same whatever order the runtime would choose. -/
+theorem load_order_independent (π π' : Adv) (doc : Doc) : load π doc = load π' doc := rfl
+
+/-- the same, spelled out for the two ordered attributes -/
+theorem load_variables_equations_independent (π π' : Adv) (doc : Doc) (F F' : Flat)
+    (h : load π doc = .ok F) (h' : load π' doc = .ok F') : variables F = variables F' ∧ F.eqs = F'.eqs := by
+  have : (Except.ok F : Except Err Flat) = .ok F' := h.symm.trans ((load_order_independent π π' doc).trans h')
+  cases this
+  exact ⟨rfl, rfl⟩
+
+/-- before the fix: same variables, same equation SET, order of the equations at the adversary's mercy -/
+theorem loadSet_perm (π : Adv) (hπ : π.Fair) (doc : Doc) (F : Flat) (h : Load.load doc = .ok F) :
+    ∃ F', loadSet π doc = .ok F' ∧ F'.vars = F.vars ∧ F'.eqs.Perm F.eqs := by
+  unfold Load.load at h
+  unfold loadSet
+  split at h
+  · cases h
+  · rename_i L hL
+    split at h
+    · cases h
+    · rename_i defined hdef
+      split at h
+      · cases h
+      · rename_i hcon
+        simp only [Except.ok.injEq] at h
+        subst h
+        simp only [hL, hdef, hcon]
+        refine ⟨_, rfl, rfl, ?_⟩
+        simp only [Loaded.flat]
+        apply List.Perm.append_left
+        rw [← transformConstants_eq]
+        exact transformConstantsSet_perm π hπ _ _
+
+/-- the answer of a query: a list, or a refusal (the class of the error is not compared) -/
+abbrev Answer := Except C09.Err (List Node)
+
+/-- **Every ordered query of the model is independent of the iteration order of the sets the code walks through.**
+    For two fair adversaries `π`, `π'` at `find_variables_and_derivatives` (graph construction) and `nx.ancestors`:
+    `get_state_variables`, `get_derivatives`, `get_derived_quantities` and `get_equations_for` (any request, both
+    recursion modes, with and without number substitution) return the same list, or are both refused.
+    Hypotheses — facts about the flat model, not about the adversary: every defined variable is declared
+    (`Declared`), a state has one ODE (`OdeOnce`), `str` keys of graph nodes are pairwise distinct (`hkey`). -/
+theorem queries_order_independent (cx : Ctx) (π π' : Adv) (hπ : π.Fair) (hπ' : π'.Fair)
+    (obs : FlatEq → List (Lhs VRef)) (F : Flat) (hd : Declared cx F) (ho : OdeOnce cx F)
+    (hkey : ∀ a b, (C09.hasEq (system cx π obs F) a = true ∨ C09.isStateOrFree (system cx π obs F) a = true) →
+      (C09.hasEq (system cx π obs F) b = true ∨ C09.isStateOrFree (system cx π obs F) b = true) →
+      cx.key a = cx.key b → a = b) :
+    (getDerivatives cx π obs F).toOption = (getDerivatives cx π' obs F).toOption ∧
+    (getDerivedQuantities cx π obs F).toOption = (getDerivedQuantities cx π' obs F).toOption ∧
+    ∀ vars recurse strip, (getEquationsFor cx π obs F vars recurse strip).toOption =
+      (getEquationsFor cx π' obs F vars recurse strip).toOption := by
+  refine ⟨?_, ?_, ?_⟩
+  · exact sorted_nodes_indep hπ hπ' (isDeriv cx F) (fun d => orderAdded cx F (stateOf cx F d))
+      (fun g _ a _ b _ ha hb hk => stateOf_inj hd ho ha hb hk)
+  · apply sorted_nodes_indep hπ hπ' (fun v => !isDeriv cx F v && types cx F.eqs v == some .computed) (orderAdded cx F)
+    intro g _ a _ b _ ha hb hk
+    simp only [Bool.and_eq_true, beq_iff_eq] at ha hb
+    exact orderAdded_inj (computed_declared hd ha.2) (computed_declared hd hb.2) hk
+  · intro vars recurse strip
+    rw [getEquationsFor_eq hπ, getEquationsFor_eq hπ']
+    have hs := system_same cx obs F hπ hπ'
+    have hs' := system_same cx obs F hπ' hπ
+    have hl := system_lhs cx π π' obs F
+    cases h : C09.getEquationsFor cx.key (system cx π obs F) vars recurse strip with
+    | ok res =>
+        obtain ⟨res', h'⟩ := eqsfor_ok_transfer hl hs h
+        rw [h']
+        rw [Cellml.Props.C09.eqsfor_insertion_independent cx.key _ _ vars recurse strip res res' hs hkey h h']
+    | error x =>
+        cases h' : C09.getEquationsFor cx.key (system cx π' obs F) vars recurse strip with
+        | error y => rfl
+        | ok res' =>
+            obtain ⟨res, hres⟩ := eqsfor_ok_transfer (system_lhs cx π' π obs F) hs' h'
+            rw [h] at hres; cases hres
+
+/-- `get_state_variables` does not go through the graph at all -/
+theorem states_order_independent (cx : Ctx) (π π' : Adv) (doc : Doc) (F F' : Flat)
+    (h : load π doc = .ok F) (h' : load π' doc = .ok F') : getStateVariables cx F = getStateVariables cx F' := by
+  have : (Except.ok F : Except Err Flat) = .ok F' := h.symm.trans ((load_order_independent π π' doc).trans h')
+  cases this; rfl
+
+/-! ### Two order dependences that are still in the code, reproduced by the model -/
+
+/-- a small flat model: `dx/dt = x + y`, `dy/dt = a`, `z = a + a`, constant `a = 3` (what `load` gives for one
+    component with variables t, x, y, z, a) -/
+def demoF : Flat :=
+  { reg := []
+    vars := [⟨("c", "t"), [], none, none⟩, ⟨("c", "x"), [], some 1, none⟩, ⟨("c", "y"), [], some 2, none⟩,
+             ⟨("c", "z"), [], none, none⟩, ⟨("c", "a"), [], none, none⟩]
+    eqs := [⟨.diff ("c", "x") ("c", "t"), .add (.var ("c", "x")) (.var ("c", "y"))⟩,
+            ⟨.diff ("c", "y") ("c", "t"), .var ("c", "a")⟩,
+            ⟨.var ("c", "z"), .add (.var ("c", "a")) (.var ("c", "a"))⟩,
+            ⟨.var ("c", "a"), .num 3 ([], [])⟩] }
+
+def demoCx : Ctx := ctxOf demoF
+
+/-- KNOWN FINDING `hashseed:graph_nodes`. The node LIST of `Model.graph` does depend on the iteration order of
+    `find_variables_and_derivatives`: the states `x`, `y` (nodes 1, 2) referenced by `dx/dt = x + y` become nodes
+    in the order the set hands them out. (Nodes: t x y z a = 0 1 2 3 4, dx/dt = 5, dy/dt = 6.) -/
+theorem graph_nodes_order_dependent :
+    graphNodes demoCx Adv.ident obsAll demoF = .ok [5, 6, 3, 4, 1, 2, 0] ∧
+    graphNodes demoCx Adv.rev obsAll demoF = .ok [5, 6, 3, 4, 2, 1, 0] := by
+  decide +kernel
+
+/-- … while every ordered query answers the same (instances of `queries_order_independent`, evaluated) -/
+example :
+    getDerivatives demoCx Adv.ident obsAll demoF = .ok [5, 6] ∧ getDerivatives demoCx Adv.rev obsAll demoF = .ok [5, 6] ∧
+    getDerivedQuantities demoCx Adv.ident obsAll demoF = .ok [3] ∧
+    getDerivedQuantities demoCx Adv.rev obsAll demoF = .ok [3] ∧
+    getStateVariables demoCx demoF = [1, 2] ∧
+    getEquationsFor demoCx Adv.ident obsAll demoF [5, 3] true true = .ok [4, 5, 3] ∧
+    getEquationsFor demoCx (Adv.rot 1) obsAll demoF [5, 3] true true = .ok [4, 5, 3] := by
+  decide +kernel
+
+/-- the hypotheses of `queries_order_independent` hold of it -/
+example : Declared demoCx demoF ∧ OdeOnce demoCx demoF := by
+  constructor
+  · intro e he
+    simp only [demoF, List.mem_cons, List.not_mem_nil, or_false] at he
+    rcases he with rfl | rfl | rfl | rfl <;> decide +kernel
+  · intro e₁ h₁ e₂ h₂
+    simp only [demoF, List.mem_cons, List.not_mem_nil, or_false] at h₁ h₂
+    rcases h₁ with rfl | rfl | rfl | rfl <;> rcases h₂ with rfl | rfl | rfl | rfl <;> decide +kernel
+
+/-- the same equations with `t = 2·s` added BEFORE resp. AFTER the ODE whose free variable `t` is -/
+def freeEqFirst : Flat :=
+  { reg := []
+    vars := [⟨("A", "t"), [], none, none⟩, ⟨("A", "s"), [], none, none⟩, ⟨("B", "x"), [], some 1, none⟩]
+    eqs := [⟨.var ("A", "t"), .mul (.num 2 ([], [])) (.var ("A", "s"))⟩,
+            ⟨.diff ("B", "x") ("A", "t"), .num 1 ([], [])⟩,
+            ⟨.var ("A", "s"), .num 1 ([], [])⟩] }
+
+def freeEqLast : Flat :=
+  { freeEqFirst with
+    eqs := [⟨.diff ("B", "x") ("A", "t"), .num 1 ([], [])⟩,
+            ⟨.var ("A", "t"), .mul (.num 2 ([], [])) (.var ("A", "s"))⟩,
+            ⟨.var ("A", "s"), .num 1 ([], [])⟩] }
+
+/-- KNOWN FINDING `permutation:derived-free-variable-with-equation`. When the free variable of an ODE also has a
+    defining equation, `Variable.type` is whatever `Model.graph` assigned LAST, so the SET `get_derived_quantities`
+    returns depends on the order of `Model.equations`, i.e. on the order of the components in the document:
+    the same three equations, `t` (node 0) is a derived quantity or not. -/
+theorem derived_depends_on_equation_order :
+    freeEqLast.eqs.Perm freeEqFirst.eqs ∧
+    getDerivedQuantities (ctxOf freeEqFirst) Adv.ident obsAll freeEqFirst = .ok [] ∧
+    getDerivedQuantities (ctxOf freeEqLast) Adv.ident obsAll freeEqLast = .ok [0] := by
+  refine ⟨?_, by decide +kernel, by decide +kernel⟩
+  exact List.Perm.swap _ _ _
+
+/-! ## Part 2 — sorting -/
+
+/-- **Sorted queries are deterministic**: `list.sort(key=order_added)` on pairwise distinct keys returns a list that
+    depends only on the SET sorted — not on the order in which a dict, a graph or a set delivered the elements. -/
+theorem sorted_queries_deterministic {α : Type} (k : α → Nat) (l₁ l₂ : List α) (hp : l₁.Perm l₂)
+    (hinj : ∀ a ∈ l₁, ∀ b ∈ l₁, k a = k b → a = b) : sortBy k l₁ = sortBy k l₂ :=
+  sortBy_eq_of_perm k hp hinj
+
+/-- the result is the elements sorted: a permutation of the input, keys non-decreasing -/
+theorem sortBy_spec {α : Type} (k : α → Nat) (l : List α) :
+    (sortBy k l).Perm l ∧ (sortBy k l).Pairwise (fun a b => k a ≤ k b) := ⟨sortBy_perm k l, sortBy_sorted k l⟩
+
+/-- equal keys ARE ordered by arrival (Python's sort is stable) — why distinct keys are needed -/
+theorem sorted_ties_follow_insertion :
+    sortBy (fun _ : Nat => 0) [1, 2] = [1, 2] ∧ sortBy (fun _ : Nat => 0) [2, 1] = [2, 1] := by decide
+
+/-- **`order_added` keys are distinct**, after any history of `add_variable` / `remove_variable`: they come from the
+    counter `_variables_added`, which only grows. `variables()` (dict order) is strictly increasing in `order_added`,
+    hence already sorted by it. -/
+theorem order_added_distinct (ops : List VarOp) :
+    ((VarsState.run ops).live.map (·.2)).Pairwise (· < ·) ∧ ((VarsState.run ops).live.map (·.2)).Nodup := by
+  have h := (VarsState.good_run ops).1
+  exact ⟨h, h.imp (fun hab => Nat.ne_of_lt hab)⟩
+
+/-- BEFORE the C08 fix (`order_added = len(self._name_to_variable)`) a key could be reused: add a, add b, remove a,
+    add c gives b and c the same `order_added` -/
+theorem order_added_reused_before_fix :
+    (([VarOp.add "a", .add "b", .remove "a", .add "c"].foldl VarsState.stepOld ⟨[], 0⟩).live.map (·.2)) = [1, 1] ∧
+    ((VarsState.run [VarOp.add "a", .add "b", .remove "a", .add "c"]).live.map (·.2)) = [1, 2] := by
+  decide +kernel
+
+/-- `get_equations_for`'s ordering (networkx' lexicographical topological sort by `str`) with pairwise distinct keys
+    depends only on the SET of nodes and the SET of edges — re-exported from C09. -/
+theorem lexTopo_insertion_independent (key : Node → String) (g g' : C09.Graph)
+    (hnodes : g'.nodes.Perm g.nodes) (hedges : ∀ e, e ∈ g'.edges ↔ e ∈ g.edges) (hinj : C09.KeyInj key g.nodes) :
+    C09.lexTopo key g' = C09.lexTopo key g :=
+  Cellml.Props.C09.lexTopo_insertion_independent key g g' hnodes hedges hinj
+
+/-- … so the node list of the graph may be in any order (`graph_nodes_order_dependent`) without consequence -/
+example : C09.lexTopo demoCx.key ⟨[5, 6, 3, 4, 1, 2, 0], [(1, 5), (2, 5), (4, 6), (4, 3)]⟩ =
+    C09.lexTopo demoCx.key ⟨[5, 6, 3, 4, 2, 1, 0], [(2, 5), (1, 5), (4, 6), (4, 3)]⟩ := by decide +kernel
+
+/-! ## Part 3 — permuting the elements of the document
+
+    Which orders FOLLOW the document (and therefore change when the corresponding elements are permuted):
+    * `variables()` / `order_added`: `<component>` order, then `<variable>` order (`variables_follow_document`);
+    * `Model.equations`: conversion equations in the order the connection work list resolves them, then the maths
+      of the components in `<component>` / `<math>` / equation order, then the initial-value constants in
+      `variables()` order (`equations_follow_document`);
+    * the sorted role queries: `variables()` order (definition of `orderAdded`); `get_equations_for`: none.
+    Everything else is unchanged: `element_perm_*`. -/
+
+/-- **`variables()` follows the document**: components in file order, in each the variables in file order. -/
+theorem variables_follow_document (doc : Doc) (F : Flat) (h : Load.load doc = .ok F) :
+    variables F = doc.comps.flatMap (fun c => c.vars.map (fun d => (c.name, d.name))) := by
+  obtain ⟨L, hL, rfl⟩ := Cellml.Props.C01.load_flat h
+  obtain ⟨_, _, hvt, _⟩ := prepare_parts hL
+  simp only [variables, Loaded.flat, flatVars, hvt, varTable, List.map_map, List.map_flatMap]
+  rfl
+
+/-- **`Model.equations` follows the document** in exactly this way. -/
+theorem equations_follow_document (doc : Doc) (F : Flat) (h : Load.load doc = .ok F) :
+    ∃ L, prepare doc = .ok L ∧
+      F.eqs = L.st.convs.map ConvEq.toEq
+        ++ doc.comps.flatMap (fun c => c.eqs.map (transcribe L.ust L.st c.name))
+        ++ (varTable L.ust doc.comps).filterMap (constOf (L.states doc)) := by
+  obtain ⟨L, hL, rfl⟩ := Cellml.Props.C01.load_flat h
+  obtain ⟨_, _, hvt, _⟩ := prepare_parts hL
+  refine ⟨L, hL, ?_⟩
+  simp only [Loaded.flat, Loaded.maths, mathsOf, ← hvt]
+  rfl
+
+/-- **Permuting `<connection>` / `<map_variables>` elements.** Two documents that differ only in the order of their
+    connections (same members), both loaded: every variable stands for the same source (`rootOf`), the variables
+    (name, units, initial value) are the same list, the component maths and the constants are the same LISTS; only
+    the block of conversion equations at the front of `Model.equations` is in work-list order. -/
+theorem element_perm_connections (doc : Doc) (ks' : List Conn) (hk : ∀ k, k ∈ doc.conns ↔ k ∈ ks') (F F' : Flat)
+    (h : Load.load doc = .ok F) (h' : Load.load { doc with conns := ks' } = .ok F') :
+    ∃ L L', prepare doc = .ok L ∧ prepare { doc with conns := ks' } = .ok L' ∧
+      (∀ v, rootOf L.st v = rootOf L'.st v) ∧
+      variables F' = variables F ∧ plainVars F' = plainVars F ∧
+      ∃ maths consts, F.eqs = L.st.convs.map ConvEq.toEq ++ maths ++ consts ∧
+        F'.eqs = L'.st.convs.map ConvEq.toEq ++ maths ++ consts := by
+  obtain ⟨L, hL, rfl⟩ := Cellml.Props.C01.load_flat h
+  obtain ⟨L', hL', rfl⟩ := Cellml.Props.C01.load_flat h'
+  obtain ⟨hu, _, hvt, hp, hd, hc⟩ := prepare_parts hL
+  obtain ⟨hu', _, hvt', hp', hd', hc'⟩ := prepare_parts hL'
+  simp only at hu' hvt' hp' hd' hc'
+  have e1 : (L.reg, L.ust) = (L'.reg, L'.ust) := Except.ok.inj (hu.symm.trans hu')
+  have hreg : L'.reg = L.reg := (congrArg Prod.fst e1).symm
+  have hust : L'.ust = L.ust := (congrArg Prod.snd e1).symm
+  have hvt2 : L'.vt = L.vt := by rw [hvt', hvt, hust]
+  have hpar : L'.par = L.par := (Except.ok.inj (hp.symm.trans hp')).symm
+  rw [hvt2, hpar] at hd'
+  rw [hreg, hvt2] at hc'
+  have hroot := Cellml.Props.C01.conns_order_irrelevant hk hd hd' hc hc'
+  have hm : L'.maths { doc with conns := ks' } = L.maths doc := by
+    simp only [Loaded.maths, hust]
+    exact (mathsOf_congr L.ust hroot doc.comps).symm
+  have hs : L'.states { doc with conns := ks' } = L.states doc := by
+    simp only [Loaded.states, hm]
+  refine ⟨L, L', hL, hL', hroot, ?_, ?_, L.maths doc, constsOf (L.states doc) L.vt, rfl, ?_⟩
+  · simp only [variables, Loaded.flat, flatVars, List.map_map, hvt2]
+    rfl
+  · rw [plainVars_flat, plainVars_flat, hvt2, hs]
+  · simp only [Loaded.flat, hm, hs, hvt2]
+
+/-- **Swapping the two ends of connections** (`component_1` ↔ `component_2` with `variable_1` ↔ `variable_2`, for
+    any subset `flip` of the connections) gives the very same flat model. -/
+theorem element_perm_ends (doc : Doc) (flip : Conn → Bool) (F : Flat) (h : Load.load doc = .ok F)
+    (hok : ∀ L, prepare doc = .ok L → ∀ k ∈ doc.conns, Cellml.Props.C01.SwapOK L.par L.vt k) :
+    Load.load { doc with conns := doc.conns.map (fun k => if flip k then k.swap else k) } = .ok F := by
+  obtain ⟨L, hL, rfl⟩ := Cellml.Props.C01.load_flat h
+  obtain ⟨hu, ⟨chk, hchk⟩, hvt, hp, hd, hc⟩ := prepare_parts hL
+  have hd' := Cellml.Props.C01.directAll_swap (doc.comps.map (·.name)) L.par L.vt flip doc.conns L.dl (hok L hL) hd
+  have hprep : prepare { doc with conns := doc.conns.map (fun k => if flip k then k.swap else k) } = .ok L := by
+    have := prepare_of_parts (doc := { doc with conns := doc.conns.map (fun k => if flip k then k.swap else k) })
+      (reg := L.reg) (ust := L.ust) (chk := chk) (par := L.par) (dl := L.dl) (st := L.st)
+      hu hchk hp (hvt ▸ hd') (hvt ▸ hc)
+    rw [this]
+    congr 1
+    cases L
+    simp only at hvt
+    simp only [hvt]
+  unfold Load.load at h ⊢
+  rw [hprep]
+  rw [hL] at h
+  exact h
+
+/-- **Permuting the equations inside `<math>` elements / the `<math>` elements of a component** (`σ c` = any
+    permutation of the equations of component `c`): same variables (list, with initial values and cmeta ids), same
+    conversion equations at the front and same constants at the end of `Model.equations` (lists), the component
+    maths in between the same SET; the same set of states. -/
+theorem element_perm_equations (doc : Doc) (σ : Comp → List (Eqn String String)) (hσ : ∀ c, (σ c).Perm c.eqs)
+    (F F' : Flat) (h : Load.load doc = .ok F) (h' : Load.load { doc with comps := respell σ doc.comps } = .ok F') :
+    F'.vars = F.vars ∧ F'.eqs.Perm F.eqs ∧
+    ∃ convs maths maths' consts, F.eqs = convs ++ maths ++ consts ∧ F'.eqs = convs ++ maths' ++ consts ∧
+      maths'.Perm maths ∧ (statesOf F'.eqs).Perm (statesOf F.eqs) := by
+  obtain ⟨L, hL, rfl⟩ := Cellml.Props.C01.load_flat h
+  obtain ⟨L', hL', rfl⟩ := Cellml.Props.C01.load_flat h'
+  rw [respell_prepare, hL] at hL'
+  cases hL'
+  have hm : (L.maths { doc with comps := respell σ doc.comps }).Perm (L.maths doc) :=
+    respell_maths_perm σ hσ L.ust L.st doc.comps
+  have hs : ∀ v, v ∈ L.states { doc with comps := respell σ doc.comps } ↔ v ∈ L.states doc :=
+    fun v => (statesOf_perm hm).mem_iff
+  have hc := constsOf_congr hs L.vt
+  have hv := flatVars_congr hs L.st L.vt
+  have heqs : (L.flat { doc with comps := respell σ doc.comps }).eqs =
+      L.st.convs.map ConvEq.toEq ++ L.maths { doc with comps := respell σ doc.comps } ++ constsOf (L.states doc) L.vt := by
+    simp only [Loaded.flat, hc]
+  have hperm : (L.flat { doc with comps := respell σ doc.comps }).eqs.Perm (L.flat doc).eqs := by
+    rw [heqs]
+    exact List.Perm.append_right _ (List.Perm.append_left _ hm)
+  refine ⟨?_, hperm, L.st.convs.map ConvEq.toEq, L.maths doc, L.maths { doc with comps := respell σ doc.comps },
+    constsOf (L.states doc) L.vt, rfl, heqs, hm, statesOf_perm hperm⟩
+  simp only [Loaded.flat, hv]
+
+/-- **Permuting `<component>` elements** permutes `variables()` accordingly (and with it `order_added`, hence the
+    sorted role queries) — `variables()` of both documents are spelled out by `variables_follow_document`. -/
+theorem element_perm_components (doc : Doc) (comps' : List Comp) (hp : comps'.Perm doc.comps) (F F' : Flat)
+    (h : Load.load doc = .ok F) (h' : Load.load { doc with comps := comps' } = .ok F') :
+    (variables F').Perm (variables F) := by
+  rw [variables_follow_document _ _ h, variables_follow_document _ _ h']
+  exact hp.flatMap_right _
+
+/-! ### Non-vacuity: a component with two equations and two initial-value constants -/
+
+def twoDoc : Doc :=
+  { units := []
+    comps := [⟨"A", [⟨"a", "volt", .none, .none, none, none⟩, ⟨"b", "volt", .none, .none, none, none⟩,
+                     ⟨"k", "volt", .none, .none, some 5, none⟩, ⟨"j", "volt", .none, .none, some 7, none⟩],
+                    [⟨.var "a", .num 1 "volt"⟩, ⟨.var "b", .add (.var "a") (.var "k")⟩]⟩]
+    encaps := [], conns := [] }
+
+def twoVt : VarTable := varTable { id := 0, known := [] } twoDoc.comps
+def twoL : Loaded := ⟨Units.builtinRegistry, { id := 0, known := [] }, twoVt, [], [], initState twoVt⟩
+
+theorem two_prepare (σ : Comp → List (Eqn String String)) :
+    prepare { twoDoc with comps := respell σ twoDoc.comps } = .ok twoL := by
+  rw [respell_prepare]
+  exact prepare_of_parts (chk := ([("A", "j"), ("A", "k"), ("A", "b"), ("A", "a")], []))
+    (by decide +kernel) (by decide +kernel) (by decide +kernel) (by decide +kernel)
+    (connect_of_fuel 1 (by decide +kernel))
+
+/-- the equations of a component written in the other order -/
+def revEqs (c : Comp) : List (Eqn String String) := c.eqs.reverse
+
+theorem two_load : Load.load twoDoc = .ok (twoL.flat twoDoc) :=
+  load_of_parts (defined := [("A", "b"), ("A", "a")]) (two_prepare (fun c => c.eqs)) (by decide +kernel) (by decide +kernel)
+
+theorem two_load_rev : Load.load { twoDoc with comps := respell revEqs twoDoc.comps } =
+    .ok (twoL.flat { twoDoc with comps := respell revEqs twoDoc.comps }) :=
+  load_of_parts (defined := [("A", "a"), ("A", "b")]) (two_prepare revEqs) (by decide +kernel) (by decide +kernel)
+
+/-- `Model.equations` follows the order of the equations in the document (so the two lists differ) while
+    `element_perm_equations` applies: same set, same constants at the end, same variables -/
+example : (twoL.flat { twoDoc with comps := respell revEqs twoDoc.comps }).eqs ≠ (twoL.flat twoDoc).eqs ∧
+    (twoL.flat { twoDoc with comps := respell revEqs twoDoc.comps }).eqs.Perm (twoL.flat twoDoc).eqs :=
+  ⟨by decide +kernel,
+   (element_perm_equations twoDoc revEqs (fun c => List.reverse_perm _) _ _ two_load two_load_rev).2.1⟩
+
+/-- BEFORE the fix the two constants `k = 5`, `j = 7` of this document were appended in hash order: `loadSet` under
+    two fair adversaries gives two different `Model.equations` -/
+def twoFlatSet (π : Adv) : Flat :=
+  { reg := twoL.reg
+    vars := flatVars (twoL.states twoDoc) twoL.st twoL.vt
+    eqs := twoL.st.convs.map ConvEq.toEq ++ twoL.maths twoDoc ++ transformConstantsSet π (twoL.states twoDoc) twoL.vt }
+
+theorem loadSet_order_dependent :
+    ∃ F F', loadSet Adv.ident twoDoc = .ok F ∧ loadSet Adv.rev twoDoc = .ok F' ∧ F.eqs ≠ F'.eqs := by
+  have hp : prepare twoDoc = .ok twoL := two_prepare (fun c => c.eqs)
+  have key : ∀ π : Adv, loadSet π twoDoc = .ok (twoFlatSet π) := by
+    intro π
+    have h2 : checkMaths twoL.ust twoL.vt twoL.st twoDoc.comps (twoL.st.convs.map (·.target)) =
+        .ok [("A", "b"), ("A", "a")] := by decide +kernel
+    have h3 : checkConstants (twoL.states twoDoc) [("A", "b"), ("A", "a")] twoL.vt = .ok () := by decide +kernel
+    unfold loadSet
+    rw [hp]; simp only
+    rw [h2]; simp only
+    rw [h3]
+    rfl
+  exact ⟨_, _, key Adv.ident, key Adv.rev, by decide +kernel⟩
+
+/-! ### Non-vacuity: the relay document of C01 (membrane ⊃ channel ⊃ gate, two conversion equations) -/
+
+open Cellml.Props.C01 in
+def relayRevDoc : Doc := { relayDoc with conns := relayDoc.conns.reverse }
+
+open Cellml.Props.C01 in
+def relayRevSt : CState :=
+  match connectLoopF relayUnits.1 relayVt 10 relayDl.reverse 0 (initState relayVt) with
+  | some (.ok st) => st
+  | _ => initState relayVt
+
+open Cellml.Props.C01 in
+theorem relayRev_connect : connect relayUnits.1 relayVt relayDl.reverse = .ok relayRevSt :=
+  connect_of_fuel 10 (by decide +kernel)
+
+open Cellml.Props.C01 in
+/-- its connections in the other order resolve too (the work list then needs no rotation) … -/
+theorem relay_reversed_loads : ∃ F', Load.load relayRevDoc = .ok F' := by
+  have hprep : prepare relayRevDoc = .ok ⟨relayUnits.1, relayUnits.2, relayVt, relayPar, relayDl.reverse, relayRevSt⟩ :=
+    prepare_of_parts (chk := ([("membrane", "V"), ("channel", "V"), ("gate", "y"), ("gate", "v")], []))
+      (by decide +kernel) (by decide +kernel) (by decide +kernel) (by decide +kernel) relayRev_connect
+  exact ⟨_, load_of_parts (defined := [("membrane", "V"), ("gate", "y"), ("channel", "V"), ("gate", "v")])
+    hprep (by decide +kernel) (by decide +kernel)⟩
+
+open Cellml.Props.C01 in
+/-- … so `element_perm_connections` applies: same roots, same variables, same maths and constants -/
+example : ∃ F', Load.load relayRevDoc = .ok F' ∧ variables F' = variables (relayL.flat relayDoc) := by
+  obtain ⟨F', h'⟩ := relay_reversed_loads
+  obtain ⟨_, _, _, _, _, hv, _⟩ := element_perm_connections relayDoc relayDoc.conns.reverse
+    (fun k => List.mem_reverse.symm) _ F' relay_load h'
+  exact ⟨F', h', hv⟩
+
+open Cellml.Props.C01 in
+/-- `element_perm_ends` applies to it: both connections written the other way round load to the same flat model -/
+example : Load.load { relayDoc with conns := relayDoc.conns.map (fun k => if true then k.swap else k) } =
+    .ok (relayL.flat relayDoc) := by
+  apply element_perm_ends relayDoc (fun _ => true) _ relay_load
+  intro L hL k hk
+  rw [relay_prepare] at hL
+  cases hL
+  simp only [relayDoc, List.mem_cons, List.not_mem_nil, or_false] at hk
+  rcases hk with rfl | rfl
+  · exact ⟨⟨[("store0_mV", 1)], .inn, .none, none, none, "mV"⟩, ⟨[("volt", 1)], .inn, .out, none, none, "volt"⟩,
+      by decide +kernel, by decide +kernel, by decide +kernel⟩
+  · exact ⟨⟨[("volt", 1)], .inn, .out, none, none, "volt"⟩, ⟨[("store0_mV", 1)], .none, .out, none, none, "mV"⟩,
+      by decide +kernel, by decide +kernel, by decide +kernel⟩
+
+open Cellml.Props.C01 in
+/-- the orders that follow the document, on the relay document -/
+example : variables (relayL.flat relayDoc) = [("gate", "v"), ("gate", "y"), ("channel", "V"), ("membrane", "V")] := by
+  rw [variables_follow_document _ _ relay_load]; rfl
+
+end Cellml.Props.C15
